@@ -53,9 +53,6 @@ Example fixed_trim : is_ret (LOAD true doc_blank_attr) = true.
 Proof. vm_compute. reflexivity. Qed.
 
 (* ---------- holes of strict validation: witnesses ---------- *)
-Definition count_text (l : list (etree + cdata)) : nat :=
-  List.length (filter (fun c => match c with inr _ => true | inl _ => false end) l).
-
 Fixpoint any_node (p : etree -> bool) (t : etree) : bool :=
   match t with
   | ENode _ _ _ content _ =>
@@ -92,20 +89,28 @@ Lemma C08_value_required_refuted :
              end.
 Proof. exists doc_empty_shortname. vm_compute. reflexivity. Qed.
 
-(* (2) a character-data element may receive several text runs (each validated on its own) *)
+(* (2) REPAIRED (fix 3656060): a character-data element received several text runs (each validated on its own, the
+       serializer wrote only the first); the additional run is CharacterContentForbidden now *)
 Definition doc_two_runs := doc "<AR-PACKAGES><AR-PACKAGE><SHORT-NAME>Pkg</SHORT-NAME><CATEGORY>a<!--c-->b</CATEGORY></AR-PACKAGE></AR-PACKAGES>".
-Lemma C08_single_text_run_refuted :
-  exists bs, match LOAD true bs with
-             | Val (Ret t _) => any_node (chars_node_with (Nat.eqb 2)) t = true
-             | _ => False
-             end.
-Proof. exists doc_two_runs. vm_compute. reflexivity. Qed.
+Example fixed_two_runs_strict : match LOAD true doc_two_runs with Val (Raise (ErrParse 1 CharacterContentForbidden _ _) _) => True | _ => False end.
+Proof. vm_compute. exact I. Qed.
+Example fixed_two_runs_lenient :
+  match LOAD false doc_two_runs with
+  | Val (Ret t st) => List.length (p_warnings st) = 1%nat /\ any_node (chars_node_with (Nat.eqb 2)) t = false /\ any_node (has_text (BS "a")) t = true
+  | _ => False
+  end.
+Proof. vm_compute. auto. Qed.
 
-(* (3) a character reference with a sign is accepted: "&#x+41;" becomes "A" (u32::from_str_radix takes a leading '+') *)
+(* (3) REPAIRED (fix 68ba067): a character reference with a sign, "&#x+41;" / "&#+65;", was accepted and became "A"
+       (u32::from_str_radix takes a leading '+'); it is InvalidXmlEntity now — error in strict mode, warning in lenient mode *)
 Definition doc_signed_entity := doc "<AR-PACKAGES><AR-PACKAGE><SHORT-NAME>Pkg</SHORT-NAME><DESC><L-2 L=""EN"">&#x+41;</L-2></DESC></AR-PACKAGE></AR-PACKAGES>".
-Lemma C08_entity_syntax_refuted :
-  exists bs, match LOAD true bs with
-             | Val (Ret t _) => any_node (has_text (BS "A")) t = true
-             | _ => False
-             end.
-Proof. exists doc_signed_entity. vm_compute. reflexivity. Qed.
+Definition doc_signed_entity_dec := doc "<AR-PACKAGES><AR-PACKAGE><SHORT-NAME>Pkg</SHORT-NAME><DESC><L-2 L=""EN"">&#+65;</L-2></DESC></AR-PACKAGE></AR-PACKAGES>".
+Example fixed_entity_sign_hex : match LOAD true doc_signed_entity with Val (Raise (ErrParse 1 InvalidXmlEntity _ _) _) => True | _ => False end.
+Proof. vm_compute. exact I. Qed.
+Example fixed_entity_sign_dec : match LOAD true doc_signed_entity_dec with Val (Raise (ErrParse 1 InvalidXmlEntity _ _) _) => True | _ => False end.
+Proof. vm_compute. exact I. Qed.
+Example fixed_entity_sign_lenient : warnings_of (LOAD false doc_signed_entity) = Some 1%nat.
+Proof. vm_compute. reflexivity. Qed.
+Definition doc_entity := doc "<AR-PACKAGES><AR-PACKAGE><SHORT-NAME>Pkg</SHORT-NAME><DESC><L-2 L=""EN"">&#x41;&#66;&amp;</L-2></DESC></AR-PACKAGE></AR-PACKAGES>".
+Example entity_ok : match LOAD true doc_entity with Val (Ret t _) => any_node (has_text (BS "AB&")) t = true | _ => False end.
+Proof. vm_compute. reflexivity. Qed.
